@@ -11,6 +11,7 @@ mod c12;
 mod c20;
 mod net;
 mod regions;
+mod seqform;
 mod sim;
 
 fn main() {
